@@ -64,6 +64,17 @@ pub fn check(t: &Trace<'_>, out: &mut CaseOut) -> bool {
             out.violations.push(viol("C12", "C12/negotiated-values-left-over", format!("conn {}: after connect the session uses Maximum Packet Size {:?}, Maximum QoS {:?}, keep-alive {} ms; this CONNACK says {:?}, {:?}, {} ms", conn, a.maximum_packet_size, a.max_qos, a.keepalive_ms, want_mps, want_qos, want_ka)));
         }
         out.count("negotiated_values_compared", 1);
+        // the send window after connect() is what this CONNACK grants minus what is in flight
+        // (retained QoS 1/2 publishes, which will be replayed, and exchanges awaiting PUBCOMP)
+        if let Some(p) = t.log.probes.iter().find(|p| p.ev > cop.ev_ret && p.snap.is_some()) {
+            let publishes = p.arena.iter().filter(|(_, b)| b.first().is_some_and(|x| x >> 4 == 3)).count();
+            let inflight = publishes + a.tx.release.len();
+            let window = cinfo.connack.as_ref().and_then(|k| k.2.iter().find_map(|q| if let crate::refcodec::Prop::ReceiveMaximum(v) = q { Some(*v as usize) } else { None })).unwrap_or(65535).min(8);
+            out.count("send_windows_compared_after_reconnect", 1);
+            if p.arena.len() == a.tx.retained.len() && a.send_quota as usize != window.saturating_sub(inflight) {
+                out.violations.push(viol("C12", "C12/send-window-after-reconnect", format!("conn {}: after connect() the send quota is {} although the CONNACK grants {} and {} QoS 1/2 publishes are in flight ({} retained, {} awaiting PUBCOMP): the session is not usable as the broker expects", conn, a.send_quota, window, inflight, publishes, a.tx.release.len())));
+            }
+        }
         // a broker that reports no session: nothing of the old one is left to (re)send or to
         // hold a slot of the new send window
         if matches!(cinfo.connack, Some((false, 0, _))) {
